@@ -43,7 +43,9 @@ type Kernel struct {
 	// EvictPct is the per-read chance (percent) that a clean cached page is
 	// evicted before use (always legal for a kernel).
 	EvictPct int
-	NoCache  bool // bypass the page cache entirely (every read goes to LiteFS)
+	// OnOp, if set, is called at the entry of every simulated system call.
+	OnOp    func(detail string)
+	NoCache bool // bypass the page cache entirely (every read goes to LiteFS)
 }
 
 const kpage = 4096
@@ -192,6 +194,9 @@ func (k *Kernel) flushForgets() {
 
 func (k *Kernel) yield(detail string) {
 	k.flushForgets()
+	if k.OnOp != nil {
+		k.OnOp(detail)
+	}
 	if k.r.Sched != nil {
 		k.r.Sched.Yield(k.node, "fuse", detail)
 	}
